@@ -235,7 +235,11 @@ func (w *World) RepState(c *Cli, d string) map[string]any {
 // NormContent is the content as characters / XML rather than internal chunking
 // (C14 compares undo results this way): text nodes are concatenated.
 func NormContent(doc *document.Document) string {
-	obj := doc.RootObject()
+	return NormContentOf(doc.RootObject())
+}
+
+// NormContentOf is NormContent of a root object.
+func NormContentOf(obj *crdt.Object) string {
 	keys := []string{}
 	for k := range obj.Members() {
 		keys = append(keys, k)
